@@ -25,7 +25,7 @@ ASSUMPTIONS = ['"zero" for floating-point answers means <= 1e-80*total (RDA / IG
                'RDA / IG measurements use projections of >= 2 cells']
 PLAN = {
     'quick': dict(cases=200, budget_s=75, case_timeout=300, min_cases=50),
-    'thorough': dict(cases=5000, budget_s=1800, case_timeout=600, min_cases=1000),
+    'thorough': dict(cases=4000, budget_s=900, case_timeout=600, min_cases=666),
 }
 
 
